@@ -162,14 +162,19 @@ def one(cases, rng, tier, d, rep, dtname):
         Nn = [min(n, 3) for n in N]
         A = rand_tt(rng, Nn, rand_ranks(rng, d, 2), dt, M=M)
         dA = dense_of(A)
-        for _ in range(3 if tier == "quick" else 8):
+        for it in range(4 if tier == "quick" else 10):
             rows_i, cols_i, toks, kinds = [], [], [], []
-            allint = rng.random() < 0.3
+            sign_round = it if it in (1, 2) else 0      # it=1: every integer column index negative; it=2: every integer row index negative
+            allint = rng.random() < 0.3 or it in (1, 2)
             for m, n in zip(M, Nn):
                 if allint or rng.random() < 0.35:
                     a, b = rng.randrange(m), rng.randrange(n)
                     if rng.random() < 0.3:
                         a = a - m
+                    if rng.random() < 0.4 or sign_round == 1:
+                        b = b - n                      # negative column index (row and column signs vary independently)
+                    if sign_round == 2:
+                        a = a - m if a >= 0 else a
                     kinds.append("int")
                 else:
                     a, ka = rand_index(rng, m)
